@@ -53,6 +53,31 @@ def opsC02 : List (String × Handler) := [
         | none => "bad-op"
       | none => "bad-op"
     | _ => "bad-op"),
+  -- cell.rehash <steps>: one cell built in memory, hashed between writes (w<bits> / a<table> / h)
+  ("cell.rehash", fun
+    | [st] =>
+      let rec go (steps : List String) (bits : List Bool) (refs : List Cell) (out : List String) : String :=
+        match steps with
+        | [] => "ok " ++ " ".intercalate out.reverse
+        | s :: rest =>
+          match s.toList with
+          | 'w' :: bs =>
+            let nb := bits ++ bs.map (· == '1')
+            if nb.length > 1023 then "err" else go rest nb refs out
+          | 'a' :: tb =>
+            match parseTable (String.ofList tb) with
+            | some t => match Table.root t with
+              | some c => if refs.length ≥ 4 then "err" else go rest bits (refs ++ [c]) out
+              | none => "bad-op"
+            | none => "bad-op"
+          | ['h'] =>
+            match Cell.hashString sha256 (.mk 0 0 bits refs) with
+            | .ok x => go rest bits refs (x :: out)
+            | .err _ => "err"
+            | .panic _ => "panic"
+          | _ => "bad-op"
+      go (st.splitOn "/") [] [] []
+    | _ => "bad-op"),
   -- spec.levels <table> -> the definition (Spec.hashAt/depthAt/level) on the unfolded tree of row 0
   ("spec.levels", fun
     | [t] => match parseTable t with
